@@ -42,8 +42,10 @@ def positions(events):
     return p
 
 
-def drive(case, factory, judge, *, culprit, kw=None, check_every=4):
+def drive(case, factory, judge, *, culprit, kw=None, check_every=4, accept=None):
+    """accept(res) -> bool: is this run to be judged (default: it completed or deadlocked); others are inconclusive."""
     sched = case["sched"]
+    accept = accept or (lambda res: res.complete or bool(res.deadlock))
     kw = dict(kw or {})
     kw.setdefault("reuse_threads", True)
     kw.setdefault("max_steps", 20000)
@@ -77,7 +79,7 @@ def drive(case, factory, judge, *, culprit, kw=None, check_every=4):
                         raise HarnessError("base run not deterministic")
                     env.clock.us = 0
                 runs += 1
-                if not res.complete and not res.deadlock:
+                if not accept(res):
                     incomplete += 1
                     continue
                 v, nt, cl = verdict(s, res, ctx)
@@ -98,7 +100,7 @@ def drive(case, factory, judge, *, culprit, kw=None, check_every=4):
             res = det.run_program(threads, **kw)
             s = []
             for pos, t in sched["points"]:
-                if not res.complete:
+                if not accept(res):
                     break
                 eff = det.next_preemptions(res, s[-1][0] if s else -1)
                 if not eff:
@@ -119,7 +121,7 @@ def drive(case, factory, judge, *, culprit, kw=None, check_every=4):
                 res, ctx = det.run_checked(factory, s, **kw)
             else:
                 res = det.run_program(threads, s, **kw)
-        if not res.complete and not res.deadlock:
+        if not accept(res):
             return SKIP("budget")
         v, nt, cl = verdict(s, res, ctx)
         if v:
